@@ -23,7 +23,8 @@ func (r *recHash) BlockSize() int              { return 1 }
 var _ hash.Hash = &recHash{}
 
 func headerOf(st *types.Stat) []byte {
-	return []byte("H|" + st.Path + "|" + st.Linkname + "|" + string([]byte{byte(st.Mode >> 24), byte(st.Mode >> 16), byte(st.Mode >> 8), byte(st.Mode)}) + "|")
+	return []byte("H|" + st.Path + "|" + st.Linkname + "|" + string([]byte{byte(st.Mode >> 24), byte(st.Mode >> 16), byte(st.Mode >> 8), byte(st.Mode),
+		byte(st.Gid >> 24), byte(st.Gid >> 16), byte(st.Gid >> 8), byte(st.Gid)}) + "|")
 }
 
 type noteEvent struct {
@@ -42,7 +43,11 @@ func VH_C05_notify() {
 	m.Reset()
 	dest := m.Root("dest")
 	src := symSource(maxb)
-	prior := symPriorDest(dest, src)
+	// FILTER=1: the receiver rewrites the group of every entry (as callers normalising ownership
+	// do). The disk then carries the rewritten group, notifications and digests the stat as sent.
+	useFilter := v.Param("FILTER", 0) != 0
+	const filterGid = 42
+	prior := symPriorDestGid(dest, src, useFilter, filterGid)
 	oldSnap := m.Snapshot(dest)
 	recs := map[string]*recHash{}
 	var events []noteEvent
@@ -53,6 +58,7 @@ func VH_C05_notify() {
 			recs[st.Path] = r
 			return r, nil
 		},
+		Filter: nil,
 		NotifyHashed: func(kind ChangeKind, p string, fi os.FileInfo, err error) error {
 			ev := noteEvent{kind: kind, path: p}
 			if fi != nil {
@@ -64,6 +70,12 @@ func VH_C05_notify() {
 			events = append(events, ev)
 			return nil
 		},
+	}
+	if useFilter {
+		opt.Filter = func(p string, st *types.Stat) bool {
+			st.Gid = filterGid
+			return true
+		}
 	}
 	ctx := context.Background()
 	rcv, snd := newStreamPair(ctx, 256)
@@ -127,7 +139,11 @@ func VH_C05_notify() {
 		isDir := os.FileMode(e.stat.Mode).IsDir()
 		if isDir && prior[p] == "other-dir" {
 			// the old directory is (0700, 7, 7): the identity of a directory is mode, uid, gid
-			if v.And(goModeToUnixPerm(e.stat.Mode) == 0700, e.stat.Uid == 7, e.stat.Gid == 7) {
+			effGid := e.stat.Gid
+			if useFilter {
+				effGid = filterGid
+			}
+			if v.And(goModeToUnixPerm(e.stat.Mode) == 0700, e.stat.Uid == 7, effGid == 7) {
 				v.Cover("dir-unchanged")
 				v.Assert(n == 0, "an unchanged existing directory is not reported")
 				continue
